@@ -7,6 +7,10 @@ from harness import common
 PROPERTY = 'C08'
 LEAN_PROPS = 'PlumpyModel.Props.C08'
 ASSUMPTIONS = [
+    'paused points (impl-only, decided by the same clauses against the uninterrupted run): pause() is requested before every callback '
+    'position of the run (a sample for long runs) - also while a step is in flight -, the checkpoint is written from the '
+    'on_process_paused notification of a saved listener, the instance abandoned, the checkpoint loaded in a fresh loop (current loop '
+    'own / foreign / none), found paused, played and run to its end',
     'step boundaries = state entries (public ENTERED_STATE callback) of non-terminal states, boundary 0 = the freshly created '
     'process; at a crash point the process is saved with plumpy.Bundle inside the callback, the copy travels through '
     'deepcopy / pickle / YAML (alternating), the running instance is abandoned (its stepping task cancelled, its loop closed; '
@@ -120,6 +124,12 @@ def execute(prog, inputs, crash):
         d.entered = [q.state.value]
         if todo and todo[0] == k:          # (only when boundary 0 and 1 coincide; not generated)
             todo.pop(0)
+    return _finish(d, final, segments, restores, error)
+
+
+def _finish(d, final, segments, restores, error):
+    import plumpy
+    from harness import persist_gen as pg
     out = dict(segments=segments, trace=[x for s in segments for x in s], restores=restores, error=error)
     if final is not None:
         try:
@@ -141,6 +151,81 @@ def execute(prog, inputs, crash):
     except Exception:
         pass
     return out
+
+
+PAUSE_BOX = {}
+
+
+def _paused_checkpoint_class():
+    """a listener that writes the checkpoint AT the paused event (the way a daemon persists a process the moment it is paused);
+    importable, because listeners are part of the saved state"""
+    import plumpy
+    from harness import persist_gen as pg
+    g = globals()
+    if 'PausedCheckpoint' not in g:
+        class PausedCheckpoint(plumpy.ProcessListener):
+            def on_process_paused(self, process):
+                box = PAUSE_BOX
+                if box.get('armed') and 'copy' not in box and 'error' not in box:
+                    try:
+                        box['copy'] = pg.through(pg.MEDIA[box['medium']], plumpy.Bundle(process))
+                    except Exception as e:  # noqa
+                        box['error'] = f'save-raised:{type(e).__name__}: {e}'
+                    box['tlen'] = len(process._trace)
+        PausedCheckpoint.__module__ = __name__
+        PausedCheckpoint.__qualname__ = 'PausedCheckpoint'
+        g['PausedCheckpoint'] = PausedCheckpoint
+    return g['PausedCheckpoint']
+
+
+def execute_paused(prog, inputs, pos):
+    """the same crash / restore chain with the checkpoint taken at a PAUSED point: pause() is requested before callback `pos` of the
+    run (possibly while a step is in flight), the checkpoint is written from the `on_process_paused` notification, the instance is
+    abandoned, the checkpoint loaded in a fresh loop, played and run to its end.  A pause takes effect at a step boundary, so this
+    is a checkpoint at a step boundary."""
+    from harness import persist_gen as pg, detloop
+    import plumpy
+    box = PAUSE_BOX
+    box.clear()
+    box.update(armed=True, medium=pos % 3)
+    segments, restores, error, final = [], 0, None, None
+    d = pg.Drive(prog, inputs=inputs, pid=7, listener=False)
+    d.p.add_process_listener(_paused_checkpoint_class()())
+    for _ in range(pos):
+        if not d.tick() and (d.p.has_terminated() or not d.wake()):
+            break
+    if not d.p.has_terminated():
+        try:
+            d.p.pause('checkpoint')
+        except Exception as e:  # noqa  (pause is C05's business)
+            box['error'] = f'pause-raised:{type(e).__name__}'
+    guard = 0
+    while 'copy' not in box and 'error' not in box and guard < 400 and not d.p.has_terminated() and d.tick():
+        guard += 1
+    if 'error' in box and not box['error'].startswith('pause-raised'):
+        error = box['error']
+    if 'copy' not in box or error:
+        box['armed'] = False
+        final = d.run_to_end()
+        segments.append(list(d.p._trace))
+        return _finish(d, final, segments, restores, error)
+    segments.append(list(d.p._trace[:box['tlen']]))
+    d.abandon()
+    box['armed'] = False
+    loop = detloop.DetLoop()
+    loop_mode = ('own', 'foreign', 'none')[pos % 3]
+    detloop.use_loop(loop, foreign={'own': False, 'foreign': True, 'none': 'none'}[loop_mode])
+    try:
+        q = box['copy'].unbundle(plumpy.LoadSaveContext(loop=loop))
+    except Exception as e:  # noqa
+        return _finish(d, None, segments, restores, f'restore-raised:{type(e).__name__}: {e}')
+    restores += 1
+    d = pg.Drive(prog, process=q, loop=loop, loop_mode=loop_mode)
+    if not q.paused and not q.has_terminated():
+        error = 'restored-not-paused: a process checkpointed at its paused event is restored paused'
+    final = d.run_to_end()
+    segments.append(list(d.p._trace))
+    return _finish(d, final, segments, restores, error)
 
 
 def compare(ref, run):
@@ -284,6 +369,18 @@ def run_program(job):
         elif prog['kind'] == 'proc':
             res['plines'].append(plain_model_line(prog, crash, intern))
             res['pimpl'].append(plain_impl_line(prog, run, intern))
+    # checkpoints taken at a paused point (from the paused notification), pause requested at every callback position
+    for pos in job.get('pause_positions', []):
+        try:
+            run = execute_paused(prog, inputs, pos)
+        except Exception as e:  # noqa
+            run = dict(error=f'run-raised:{type(e).__name__}: {e}', restores=0, trace=[], segments=[])
+        res['runs'] += 1
+        for sig, clause, detail in compare(ref, run):
+            res['failures'].append(dict(signature='paused:' + sig, clause=clause,
+                                        case=dict(name=name, prog=prog, inputs=inputs, crash=[], paused_at=pos), detail=detail))
+        hk = f"paused-restores={run['restores']}"
+        res['hist'][hk] = res['hist'].get(hk, 0) + 1
     if prog['kind'] == 'proc':          # the uninterrupted run itself is a chain with no crash point
         res['plines'].append(plain_model_line(prog, [], intern))
         res['pimpl'].append(plain_impl_line(prog, dict(ref, restores=0), intern))
@@ -347,11 +444,15 @@ def gen_jobs(ctx):
     jobs = []
     for name, prog, inputs in programs:
         try:
-            _n, nent = pg.profile(prog, inputs=inputs)
+            ncb, nent = pg.profile(prog, inputs=inputs)
         except Exception:
-            nent = 2
+            ncb, nent = 3, 2
         nb = max(nent - 1, 1)              # boundaries 0 .. nent-2 (the last entry is the terminal state)
-        jobs.append(dict(name=name, prog=prog, inputs=inputs, subsets=subsets_of(nb, M, rng, cap), boundaries=nb))
+        # pause requested before every callback of the uninterrupted run (a sample of them for the long ones)
+        pp = list(range(0, ncb + 1))
+        if len(pp) > (12 if thorough else 5):
+            pp = sorted(rng.sample(pp, 12 if thorough else 5))
+        jobs.append(dict(name=name, prog=prog, inputs=inputs, subsets=subsets_of(nb, M, rng, cap), boundaries=nb, pause_positions=pp))
     return jobs, M
 
 
@@ -423,7 +524,7 @@ def replay(ctx, failure):
     prog = c07._fix_prog(case['prog'])
     inputs = case.get('inputs')
     ref = execute(prog, inputs, [])
-    run_ = execute(prog, inputs, case.get('crash', []))
+    run_ = execute_paused(prog, inputs, case['paused_at']) if 'paused_at' in case else execute(prog, inputs, case.get('crash', []))
     fails = compare(ref, run_) if not ref['error'] else [('reference-run', 'the uninterrupted run completes', ref['error'])]
     out = dict(reference=dict(trace=ref['trace'], state=ref.get('state'), outputs=repr(ref.get('outputs')), outcome=repr(ref.get('outcome'))),
                resumed=dict(segments=run_['segments'], state=run_.get('state'), outputs=repr(run_.get('outputs')),
